@@ -174,9 +174,10 @@ def _check_c02(v: Verdict, case: dict[str, Any], ids: Any, power: float, dist: d
 
 
 def _requests(case: dict[str, Any], power: float) -> list[float]:
-    out = [power]
+    nudge = case["mode"] == "manager"
+    out = [batsys.request_power(case["groups"], case["req"], nudge=nudge) if nudge else power]
     for extra in case.get("more", []):
-        out.append(out[-1] if extra == "same" else batsys.request_power(case["groups"], extra))
+        out.append(out[-1] if extra == "same" else batsys.request_power(case["groups"], extra, nudge=nudge))
     return out
 
 
